@@ -353,6 +353,17 @@ def _partitioned(cfg, f, queue, pv, hnode):
             gs = {(utext(g.exprs[0]), pol) for g, pol in cfg.guards(m.id)}
             same_len = {gp("len(%s) != len(%s)" % (kept, queue)), gp("len(%s) != len(%s)" % (queue, kept)),
                         gp("len(%s) < len(%s)" % (kept, queue)), gp("len(%s) > len(%s)" % (queue, kept))}
+            # ... or when a counter / flag that only release paths set is still falsy (nothing was released)
+            for t_, pol_ in list(gs):
+                if pol_ and t_.isidentifier():
+                    inits_ = [x for x in walk_nodes(f.node.body, ast.Assign) if utext(x.targets[0]) == t_
+                              and x not in list(ast.walk(loops[0]))]
+                    sets_ = [x for x in cfg.live_nodes() if x.kind == "stmt" and isinstance(x.ast, (ast.Assign, ast.AugAssign))
+                             and t_ in [utext(y) for y in (x.ast.targets if isinstance(x.ast, ast.Assign) else [x.ast.target])]
+                             and x.ast in list(ast.walk(loops[0]))]
+                    if len(inits_) == 1 and utext(inits_[0].value) in ("0", "False") and sets_ and all(
+                            any(cfg.dominates(r_, x.id) for r_ in rel_ids) for x in sets_):
+                        gs = gs - {(t_, pol_)}
             if gs <= same_len and cfg.dominates(head.id, m.id):
                 return True
     return False
